@@ -140,6 +140,18 @@ def seeded_changes(prop):
     return res
 
 
+def benign_changes():
+    from .report import VERIF
+    root = os.path.join(VERIF, 'benign')
+    out = []
+    if os.path.isdir(root):
+        for bid in sorted(os.listdir(root)):
+            p = os.path.join(root, bid, 'patch.diff')
+            if os.path.exists(p):
+                out.append((bid, open(p, encoding='utf-8').read()))
+    return out
+
+
 def _seed_job(args):
     prop, repo, sid, diff = args
     from .main import analyse
@@ -228,8 +240,29 @@ def run_selftest(prop, repo, jobs=None):
                 res['seeded_known_misses'].append(sid)
             else:
                 res['seeded_missed'].append({'seeded': sid, 'exit': code})
+    # independently written behaviour-preserving refactorings (/verif/benign): none may be reported
+    bens = benign_changes()
+    res['refactorings_applied'] = res['refactorings_silent'] = res['refactorings_undecided'] = 0
+    res['refactorings_flagged'] = []
+    res['refactorings_inapplicable'] = []
+    if bens:
+        with concurrent.futures.ProcessPoolExecutor(max_workers=jobs) as ex:
+            bres = list(ex.map(_seed_job, [(prop, repo, bid, diff) for bid, diff in bens]))
+        for bid, status, code in bres:
+            if status == 'inapplicable':
+                res['refactorings_inapplicable'].append(bid)
+                continue
+            res['refactorings_applied'] += 1
+            if code == 0:
+                res['refactorings_silent'] += 1
+            elif code == 2:
+                res['refactorings_undecided'] += 1
+            else:
+                res['refactorings_flagged'].append(bid)
     err = None
-    if res.get('seeded_missed'):
+    if res.get('refactorings_flagged'):
+        err = "self-validation: behaviour-preserving refactoring(s) reported: %s" % res['refactorings_flagged']
+    elif res.get('seeded_missed'):
         err = "self-validation: seeded change(s) no longer reported: %s" % [x['seeded'] for x in res['seeded_missed']]
     elif res['benign_flagged']:
         err = "self-validation: benign twin(s) reported: %s" % [b['variant'] for b in res['benign_flagged']]
